@@ -262,3 +262,9 @@ impl PacketBuilder {
         }
     }
 }
+
+#[cfg(all(feature = "verif-hooks", kani))]
+#[allow(dead_code, unused)]
+pub(crate) mod verif_harness {
+    include!(concat!(env!("VERIF_HARNESS_DIR"), "/packet_builder_h.rs"));
+}
